@@ -214,10 +214,10 @@ def normalize_value_table(prog: Program) -> Dict[str, Any]:
     return {"table": out, "decorators": decos, "fn": fn}
 
 
-def normalize_name_pipeline(prog: Program) -> Dict[str, Any]:
+def normalize_name_pipeline(prog: Program, mod: str = CORE, qual: str = "TagAttrDict._normalize_attr_name") -> Dict[str, Any]:
     """Paths of _normalize_attr_name as (conditions, operation chain on the argument)."""
     I = Interp(prog)
-    fn = prog.function(CORE, "TagAttrDict._normalize_attr_name")
+    fn = prog.function(mod, qual)
     p = fn.args.args[0].arg
     paths = []
 
@@ -226,7 +226,7 @@ def normalize_name_pipeline(prog: Program) -> Dict[str, Any]:
         run.__dict__["arg"] = o
         return ({p: o}, None)
 
-    for l in I.run_function(CORE, "TagAttrDict._normalize_attr_name", mk, Config()):
+    for l in I.run_function(mod, qual, mk, Config()):
         arg = l.run.__dict__["arg"]
         chain: List[Tuple[Any, ...]] = []
         ok = True
